@@ -806,6 +806,11 @@ var c17MacroPosSrcs = []string{
 	"{% extends 'base' %}{% block a %}{% if parent() %}!{% endif %}{% endblock %}",
 	"{% macro m() %}{{ nofn() }}{% endmacro %}a{% set v = m() %}z",
 	"{% macro m() %}{% include 'does_not_exist' %}{% endmacro %}a{% set v = m() %}z",
+	// a macro that the imported library does not have (a function or a local macro of that name exists)
+	"{% import 'lib' as forms %}a{{ forms.max(1, 2) }}z",
+	"{% import 'lib' as forms %}a{% for i in forms.range(1, 3) %}{{ i }}{% endfor %}z",
+	"{% macro label() %}LOCAL{% endmacro %}{% import 'lib' as forms %}a{{ forms.label() }}z",
+	"{% import 'lib' as forms %}a{% set v = forms.nothing_of_that_name() %}z",
 }
 
 // checkC17MacroPos: the failure inside the macro body (parent block) surfaces wherever the call is
@@ -824,7 +829,7 @@ func checkC17MacroPos(c C17MacroPosCase) error {
 }
 
 func TestC17MacroPositions(t *testing.T) {
-	r := NewRec(t, "C17", "exhaustive: 17 templates in which a macro (local, import-as, from-import, alias) or parent() whose body cannot be rendered (unknown filter, unknown function, missing include) is called in a do tag, a set, an if condition, a loop, an include-with value, under a filter, next to ~ or inside a list; oracle: Render returns an error and no output; all cases non-trivial")
+	r := NewRec(t, "C17", "exhaustive: 21 templates in which a macro (local, import-as, from-import, alias) or parent() whose body cannot be rendered (unknown filter, unknown function, missing include) is called in a do tag, a set, an if condition, a loop, an include-with value, under a filter, next to ~ or inside a list, or a macro is asked of an imported library that lacks it while a function or a local macro has the name; oracle: Render returns an error and no output; all cases non-trivial")
 	defer r.Flush()
 	r.SetExhaustive()
 	for i := range c17MacroPosSrcs {
